@@ -16,7 +16,7 @@ Property clause → theorem
     - `x/liquidity/keeper/pool.go` `TransferFundsForSwapFeeDistribution` → `C16.site_TransferFundsForSwapFeeDistribution_perm_invariant`
                                                                      (+ `C16.swapFeeTotal_closed_form`: panics iff the TOTAL overflows)
   and these are ALL the sites: `C16.table_mapRangeSites_proven`, `C16.table_mapRangeSites_size`,
-  `C16.table_provenSites_live` over the regenerated table `Gen.Determinism.mapRangeSites`
+  `C16.table_mapRangeSites_text`, `C16.table_provenSites_live` over the regenerated table `Gen.Determinism.mapRangeSites`
   (keys are (file, function, body shape): an edited loop body gets a new shape and has no theorem);
   no map is handed to code outside the scanned packages from keeper code: `C16.table_mapArgsExternal`.
   Why the shape matters: `C16.appendInOrder_order_dependent`, `C16.firstMatch_order_dependent` (the two loop shapes
@@ -180,6 +180,18 @@ theorem table_mapRangeSites_proven : ∀ s ∈ Determinism.mapRangeSites, s.key 
 
 /-- one range per proven site (a second map range added to a proven function shows up here) -/
 theorem table_mapRangeSites_size : Determinism.mapRangeSites.length = 4 := by decide +kernel
+
+/-- the loops are textually the ones that were modelled (comments / layout / line numbers do not matter; any edit of
+a loop statement does, and must be re-modelled) -/
+def modelledLoops : List (String × String) := [
+  ("App.ModuleAccountAddrs", "for name := range a.ModuleAccountsPermissions() { names = append(names, name) }"),
+  ("DistributeOrderAmountToOrders",
+    "for order, matchedAmt := range matchedAmtByOrder { quoteCoinDiff = quoteCoinDiff.Add(FillOrder(order, matchedAmt, price)) }"),
+  ("OrderBook.String", "for _, price := range priceSet { prices = append(prices, price) }"),
+  ("Keeper.TransferFundsForSwapFeeDistribution",
+    "for _, pLiquidity := range poolLiquidityMap { totalLiquidity = totalLiquidity.Add(pLiquidity) }")]
+
+theorem table_mapRangeSites_text : Determinism.mapRangeSites.map (·.text) = modelledLoops := by decide +kernel
 
 /-- every theorem still speaks about a loop that exists -/
 theorem table_provenSites_live : ∀ k ∈ provenSites, k ∈ Determinism.mapRangeSites.map (·.key) := by decide +kernel
